@@ -1,12 +1,16 @@
 import TsRsVerif.Model.Deps
+import TsRsVerif.Lemmas.DenotLemmas
 /-!
 # C14 — inline, flatten and `as` change presentation, never meaning
 
 Theorems over the string-level model of the derive. `as = "U"`: the item is processed exactly as if
 the Rust type at that position were `U`. Inline: `inline()` of a type IS the body of its concrete
-declaration. The denotational statements (inline ≈ by name, flatten ≈ merge) are decided on every
-run by the relational oracle of `tools/props/c14.py` (normal-form comparison of the real
-declarations of sibling items, and cross-membership of real JSON), stated partial here.
+declaration. The denotational statements are theorems about the meaning of TypeScript types (`Member`):
+`C14_inline_same_values` (a reference and its unfolded body denote the same values; also below `Array<..>` and
+`.. | null`), `C14_flatten_is_merge` (`{ A } & { B }` with disjoint property names denotes exactly what the merged
+literal `{ A B }` denotes — the textual merge ts-rs performs). That the REAL declarations of sibling items are such
+unfoldings / merges of each other is decided on every run by the relational oracle of `tools/props/c14.py`
+(normal-form comparison of the real declarations, and cross-membership of real JSON).
 -/
 namespace TsRs
 open Text Derive
@@ -88,5 +92,27 @@ theorem C14_inline_vs_name (cfg : Cfg) (env : Env) (fuel : Nat) (σ : List (Str 
     simp [hty]
   · simp only [hi, if_true] at hty ⊢
     simp [hty]
+
+/-! ## what the presentations MEAN -/
+open Ts in
+/-- **inline never changes meaning**: a reference `Name<args>` and the body of the declaration unfolded at those
+arguments (what `#[ts(inline)]` prints) denote the same set of JSON values, for every declaration environment -/
+theorem C14_inline_same_values (D : Decls) (n : Str) (args : List Ts) (ps : List Str) (body : Ts) (j : JVal)
+    (hl : lookupDecl D n = some (ps, body)) :
+    Member D (.ref n args) j ↔ Member D (subst (ps.zip args) body) j := member_ref_iff D n args ps body j hl
+
+open Ts in
+/-- … also when the inlined type stands below `Vec` (`Array<..>`) or `Option` (`.. | null`) -/
+theorem C14_inline_below_containers (D : Decls) (t t' : Ts) (h : ∀ j, Member D t j ↔ Member D t' j) (j : JVal) :
+    (Member D (.array t) j ↔ Member D (.array t') j) ∧ (Member D (.union [t, .null]) j ↔ Member D (.union [t', .null]) j) :=
+  ⟨member_array_congr D t t' h j, member_union_null_congr D t t' h j⟩
+
+open Ts in
+/-- **flatten never changes meaning**: merging the properties of the flattened object type into the parent's literal
+(what ts-rs prints for `#[serde(flatten)]` on a struct) denotes exactly the intersection `{ parent } & { flattened }`,
+whenever the two have no property name in common (JSON objects with distinct keys) -/
+theorem C14_flatten_is_merge (D : Decls) (A B : List (TsKey × Ts)) (kvs : List (Str × JVal))
+    (hdisj : ∀ k, k ∈ namesOf A → k ∉ namesOf B) (hnd : (kvs.map (·.1)).Nodup) :
+    Member D (.inter [.obj A, .obj B]) (.obj kvs) ↔ Member D (.obj (A ++ B)) (.obj kvs) := inter_objs_iff D A B kvs hdisj hnd
 
 end TsRs
